@@ -826,6 +826,30 @@ class Executor:
                 nd_set(obj, list(k), v)
                 self._mutated(obj, 'setitem')
                 return
+            if self._is_adv_key(k):
+                bshape, plan = self._adv_plan(list(k))
+                def vget(val, mi):
+                    # broadcast the value against bshape (right-aligned)
+                    shp = []
+                    t = val
+                    while isinstance(t, VList):
+                        shp.append(len(t.items))
+                        t = t.items[0] if t.items else None
+                    off = len(bshape) - len(shp)
+                    t = val
+                    for ax in range(len(shp)):
+                        t = t.items[mi[off + ax] if shp[ax] != 1 else 0]
+                    return t
+                for mi, tgt in plan:
+                    a_ = obj
+                    try:
+                        for x in tgt[:-1]:
+                            a_ = a_.items[x]
+                        a_.items[tgt[-1]] = vget(v, mi)
+                    except (IndexError, AttributeError):
+                        raise PyRaise('IndexError', 'advanced index out of range')
+                self._mutated(obj, 'setitem')
+                return
             if isinstance(k, tuple) and len(k) == 2 and all(isinstance(x, VList) and all(isinstance(i, int) and not isinstance(i, bool) for i in x.items) for x in k) \
                     and len(k[0].items) == len(k[1].items):
                 # fancy assignment a[rows, cols] = vals : a[rows[t], cols[t]] = vals[t] in order (later writes win)
@@ -1597,6 +1621,22 @@ class Executor:
                     except IndexError:
                         raise PyRaise('IndexError', 'index %r out of range' % (k0,))
                 return nd(obj, list(k))
+            if self._is_adv_key(k):
+                bshape, plan = self._adv_plan(list(k))
+                vals = {}
+                for mi, tgt in plan:
+                    a_ = obj
+                    try:
+                        for x in tgt:
+                            a_ = a_.items[x]
+                    except (IndexError, AttributeError):
+                        raise PyRaise('IndexError', 'advanced index out of range')
+                    vals[mi] = a_
+                def build(prefix, dims):
+                    if not dims:
+                        return vals[tuple(prefix)]
+                    return VList([build(prefix + [i], dims[1:]) for i in range(dims[0])], 'ndarray')
+                return build([], bshape)
             if isinstance(k, tuple) and len(k) == 2 and all(isinstance(x, VList) and all(isinstance(i, int) and not isinstance(i, bool) for i in x.items) for x in k) \
                     and len(k[0].items) == len(k[1].items):
                 try:
@@ -1629,6 +1669,48 @@ class Executor:
                 return items[k]
             return Tm('getitem', obj, k)
         raise Unsupported('subscript of %s' % vrepr(obj))
+
+    def _adv_plan(self, keys):
+        """numpy advanced indexing with one integer array per axis: broadcast the index arrays, return (bshape, [target index tuple per broadcast position])"""
+        def shape_of(v):
+            shp = []
+            while isinstance(v, VList):
+                shp.append(len(v.items))
+                v = v.items[0] if v.items else None
+            return shp
+        shapes = [shape_of(k) if isinstance(k, VList) else [] for k in keys]
+        r = max(len(s_) for s_ in shapes)
+        padded = [[1] * (r - len(s_)) + s_ for s_ in shapes]
+        bshape = []
+        for ax in range(r):
+            sizes = {p[ax] for p in padded if p[ax] != 1}
+            if len(sizes) > 1:
+                raise PyRaise('IndexError', 'shape mismatch: indexing arrays could not be broadcast together')
+            bshape.append(sizes.pop() if sizes else 1)
+        def elem(k, pshape, mi):
+            if not isinstance(k, VList):
+                return k
+            v = k
+            off = r - len([x for x in shape_of(k)])
+            for ax in range(off, r):
+                v = v.items[mi[ax] if pshape[ax] != 1 else 0]
+            return v
+        import itertools as _it
+        plan = []
+        for mi in _it.product(*[range(b) for b in bshape]):
+            tgt = tuple(elem(k, p, mi) for k, p in zip(keys, padded))
+            if not all(isinstance(t, int) and not isinstance(t, bool) for t in tgt):
+                raise Unsupported('advanced indexing with a symbolic index')
+            plan.append((mi, tgt))
+        return bshape, plan
+
+    def _is_adv_key(self, k):
+        def ints(v):
+            if isinstance(v, VList):
+                return v.kind == 'ndarray' and all(ints(i) for i in v.items)
+            return isinstance(v, int) and not isinstance(v, bool)
+        return isinstance(k, tuple) and len(k) >= 2 and all(isinstance(x, VList) for x in k) and all(ints(x) for x in k) and \
+            any(isinstance(x.items[0], VList) for x in k if x.items)
 
     def _sym_index(self, items, k):
         """items[k] with symbolic integer k: an ite chain when every item is a scalar, else a case split via the path explorer."""
